@@ -207,7 +207,6 @@ func dispatchClassify(in []byte) (any, error) {
 		req.Now = 1790000000000000000
 	}
 	out := c06ClassOut{}
-	const route = "/r"
 	const target = "http://127.0.0.1:9/t"
 	for mi, mx := range req.Maxes {
 		clk := &c06Clock{t: time.Unix(0, req.Now).UTC()}
@@ -221,6 +220,7 @@ func dispatchClassify(in []byte) (any, error) {
 		runCase := func(kind, code, attempt int) error {
 			seq++
 			id := fmt.Sprintf("m-%d-%06d", mi, seq)
+			route := fmt.Sprintf("/r%06d", seq) // one route per case: listings and dequeues see only this message
 			if err := store.Enqueue(queue.Envelope{ID: id, Route: route, Target: target, Payload: []byte("p")}); err != nil {
 				return err
 			}
@@ -882,6 +882,7 @@ func dispatchBatch(in []byte) (any, error) {
 	}
 	type row struct {
 		Rows [][]int64 `json:"rows"` // per message: attempt, action, delay, state, dead_reason, next_delta, nrec, rec_outcome, rec_reason
+		Now  int64     `json:"now"`  // store clock at the failure instant
 		Err  string    `json:"err,omitempty"`
 	}
 	outs := make([]row, 0, len(req.Cases))
@@ -929,6 +930,7 @@ func dispatchBatch(in []byte) (any, error) {
 		}
 		if o.Err == "" {
 			clk.Set(t0.Add(park))
+			o.Now = clk.Now().UnixNano()
 			resp, err := store.Dequeue(queue.DequeueRequest{Route: route, Batch: 100, LeaseTTL: time.Minute})
 			if err != nil || len(resp.Items) != len(c.Msgs) {
 				fail(fmt.Errorf("batch dequeue returned %d of %d items: %v", len(resp.Items), len(c.Msgs), err))
